@@ -36,7 +36,8 @@ def s(t): return ''.join(c for c, _ in t)
 
 def number_texts():
     # integers: no leading zero; floats: last fractional digit non-zero (shortest round-trip form)
-    return [T('7', 'd'), T('42', 'nd'), fixed('-') + T('3', 'n'), T('0.5', 'd-n'), T('3.14', 'd-dn'), fixed('-') + T('2.25', 'd-dn'), T('120', 'ndd')]
+    return [T('7', 'd'), T('42', 'nd'), fixed('-') + T('3', 'n'), T('0.5', 'd-n'), T('3.14', 'd-dn'), fixed('-') + T('2.25', 'd-dn'), T('120', 'ndd'),
+            T('3.14159265358979', 'd-ddddddddddddnn'.replace('nn', 'dn')), fixed('0.0000000000001'), T('1234567.125', 'ndddddd-ddn'), fixed('9007199254740993')]
 
 
 def atom_texts():
@@ -44,7 +45,7 @@ def atom_texts():
 
 
 def var_texts():
-    return [fixed('$') + T('X'), fixed('$') + T('Abc', 'ull'), fixed('$_')]
+    return [fixed('$') + T('X'), fixed('$') + T('Abc', 'ull'), fixed('$_'), fixed('$') + T('Rest_1', 'ulll-n'), fixed('$') + T('Y_23', 'u-nd'), fixed('$') + T('X2', 'ud')]
 
 
 def leaf_terms():
@@ -55,7 +56,8 @@ def terms(depth):
     """canonical term texts up to nesting depth"""
     if depth == 0: return leaf_terms()
     sub = terms(depth - 1)
-    small = sub[:1] + sub[3:5] + sub[10:11] + (sub[13:15] if depth > 1 else [])   # a, 7, 42, $X, and two nested ones
+    vi = len(atom_texts()) + len(number_texts())
+    small = sub[:1] + sub[3:5] + sub[vi:vi + 1] + (sub[vi + 6:vi + 8] if depth > 1 else [])   # a, 7, 42, $X, and two nested ones
     out = list(leaf_terms())
     out.append(fixed('[]'))
     for a in small:
@@ -68,6 +70,8 @@ def terms(depth):
         out.append(fixed('[') + a + fixed(' | $T]'))
         out.append(fixed('[') + join([a, small[0]], ', ') + fixed(' | $Rest]'))
     out.append(fixed('[a, [b, c], []]'))
+    out.append(fixed('[a, b | $Rest_1]')); out.append(fixed('[c, d, $Y_3 | $Z_4]')); out.append(fixed('f($X_1, [$X_1 | $T2])'))
+    out.append(fixed('[3.14159265358979, -0.000001, 1234567.125]'))
     out.append(fixed('h(a, [b | $T], k(1, 2.5))'))
     out.append(fixed('add(') + join([small[1], small[2]], ', ') + fixed(')'))
     out.append(fixed('join(') + join([small[0], small[0]], ', ') + fixed(')'))
@@ -85,7 +89,7 @@ def dedupe(ts):
 
 def goals(depth):
     tm = terms(0)
-    a, n, x = tm[0], tm[3], tm[10]
+    a, n, x = tm[0], tm[3], fixed('$') + T('X')
     t1 = terms(1)
     lst = [t for t in t1 if s(t).startswith('[')][:4]
     out = []
